@@ -56,8 +56,12 @@ def gen_pair(rng, maxrows=5, ragged=True, hashable=False):
     l, r = tab(lf), tab(rf)
     if diffkey:
         key, lkey, rkey = None, 'id', 'rid'
+        if rng.random() < 0.4:
+            # the same fields by position (0 included)
+            key, lkey, rkey = None, lf.index('id'), rf.index('rid')
     elif compound:
-        key, lkey, rkey = rng.choice([('id', 'k2'), ('k2', 'id'), 'id']), None, None
+        key, lkey, rkey = rng.choice([('id', 'k2'), ('k2', 'id'), 'id', lf.index('id') if lf.index('id') == rf.index('id') else 'id',
+                                      lf.index('k2') if lf.index('k2') == rf.index('k2') else 'k2']), None, None
     else:
         key, lkey, rkey = rng.choice(['id', 'id', None, 0 if lf[0] == 'id' and rf[0] == 'id' else 'id']), None, None
     return key, lkey, rkey, l, r
